@@ -119,8 +119,12 @@ func (w *nftWorkload) Next(block int) []rig.Tx {
 		cid := classes[rng.Intn(len(classes))]
 		c := w.model[cid]
 		if a, b := findAcc(r, c.Creator), r.Acc(rng.Intn(len(r.Accounts))); a != nil && a != b {
+			tid := fmt.Sprintf("tok%d", w.nTok)
+			w.nTok++
 			out = append(out, r.Mk(a, &nftTag{Op: "bundle-rolled-back"},
 				&nfttypes.MsgTransferDenom{Id: cid, Sender: c.Creator, Recipient: b.Addr.String()},
+				// the class is read again inside the same transaction (by its former creator), then the transaction fails
+				&nfttypes.MsgMintNFT{Id: tid, DenomId: cid, Name: "in-bundle", URI: "u", Data: "{}", Sender: c.Creator, Recipient: c.Creator},
 				&nfttypes.MsgBurnNFT{Id: "nosuchtoken", DenomId: cid, Sender: c.Creator}))
 			w.followUp = append(w.followUp, mtFollow{Class: cid, Actor: b.Addr.String()})
 		}
